@@ -217,10 +217,12 @@ def check_clone_faithful(ctx, rep, type_names):
             continue
         for lf in leaves:
             src = lf.cells.get(('H', 'self'))
-            ok = lf.kind == 'return' and src is not None and lf.ret is not None and lf.ret[0] == 'adt' and src[0] == 'adt' \
-                and lf.ret[1] == src[1] and lf.ret[2] == src[2] and len(lf.ret[3]) == len(src[3])
+            whole = lf.kind == 'return' and src is not None and lf.ret is not None and \
+                (lf.ret == src or eng.deep(lf.ret, _St(lf.doms)) == eng.deep(src, _St(lf.doms)))
+            ok = whole or (lf.kind == 'return' and src is not None and lf.ret is not None and lf.ret[0] == 'adt' and src[0] == 'adt'
+                           and lf.ret[1] == src[1] and lf.ret[2] == src[2] and len(lf.ret[3]) == len(src[3]))
             bad_field = None
-            if ok:
+            if ok and not whole:
                 clone_rets = {}
                 for c in lf.calls:
                     if c['callee'].endswith('Clone::clone') and c['args'] and c['args'][0][0] == 'ref':
@@ -246,7 +248,7 @@ def check_clone_faithful(ctx, rep, type_names):
 def check_modifiers(ctx, rep, tier):
     """C04"""
     check_event_constructor(ctx, rep)
-    check_clone_faithful(ctx, rep, ('EventDecoder', 'Modifiers', 'Keyboard'))
+    check_clone_faithful(ctx, rep, ('EventDecoder', 'Modifiers', 'Keyboard', 'KeyEvent', 'KeyCode', 'KeyState'))
     check_eq_structural(ctx, rep, ('Modifiers', 'KeyCode', 'KeyState', 'KeyEvent'))
     keys = load_keys()
     m = EventModel(ctx)
@@ -526,7 +528,7 @@ def same_modifiers(ctx, a, b):
 def check_decoding(ctx, rep, tier):
     """C14"""
     check_event_constructor(ctx, rep)
-    check_clone_faithful(ctx, rep, ('EventDecoder', 'Keyboard'))
+    check_clone_faithful(ctx, rep, ('EventDecoder', 'Keyboard', 'KeyEvent', 'KeyCode', 'KeyState', 'DecodedKey', 'HandleControl'))
     check_eq_structural(ctx, rep, ('DecodedKey', 'KeyCode', 'KeyState', 'KeyEvent', 'HandleControl'))
     keys = load_keys()
     m = EventModel(ctx)
